@@ -177,6 +177,22 @@ func checkErrSite(c *core.Ctx, rule string, s errSite) {
 	}
 }
 
+// consumesError: fn takes an error and returns none (a sink: it sends, logs or exits).
+func consumesError(fn *ssa.Function) bool {
+	if fn.Signature.Results().Len() != 0 {
+		return false // a function with a result may wrap the error (NewErrorIO): that is handled as a derived value
+	}
+	for i, p := range fn.Params {
+		if i == 0 && fn.Signature.Recv() != nil {
+			continue
+		}
+		if isErrorType(p.Type()) {
+			return true
+		}
+	}
+	return false
+}
+
 func hasErrPtrParam(fn *ssa.Function) bool {
 	for _, p := range fn.Params {
 		if pt, ok := p.Type().(*types.Pointer); ok && isErrorType(pt.Elem()) {
@@ -236,8 +252,9 @@ func checkErrSiteIn(c *core.Ctx, rule string, s errSite, unit *ssa.Function) {
 				return true
 			}
 		}
-		// a helper that reports through an *error out-parameter is part of its caller's error handling
-		return c.P.InScope(callee) && hasErrPtrParam(callee)
+		// a helper that reports through an *error out-parameter is part of its caller's error handling, and so is a
+		// helper that consumes an error it is handed (p.fail(err) sends it, fatal(err) ends the process)
+		return c.P.InScope(callee) && (hasErrPtrParam(callee) || consumesError(callee))
 	}
 	x.Hooks.Call = func(x *absint.Exec, st *absint.State, site ssa.CallInstruction, callee *ssa.Function, fnv absint.Value, args []absint.Value) (absint.Value, bool) {
 		if site == s.call {
@@ -388,7 +405,17 @@ func stickyType(t types.Type) bool {
 }
 
 func isParseCallbackValue(site ssa.CallInstruction) bool {
-	if site.Common().IsInvoke() || site.Common().StaticCallee() != nil {
+	if site.Common().IsInvoke() {
+		return false
+	}
+	if cal := site.Common().StaticCallee(); cal != nil {
+		// a method of the parser that forwards what the callback answered: (stop bool, err error)
+		res := cal.Signature.Results()
+		if core.FnPkgPath(cal) == parserPkg && res.Len() == 2 && isErrorType(res.At(1).Type()) {
+			if b, ok := res.At(0).Type().Underlying().(*types.Basic); ok && b.Kind() == types.Bool {
+				return true
+			}
+		}
 		return false
 	}
 	n, ok := site.Common().Value.Type().(*types.Named)
